@@ -58,6 +58,9 @@ CHECKS = {
     "C03": ("Hypothesis-generated histories of loader construction / derivation / grouping operations on identity-encoding tomograms vs a list-of-rows model; per-molecule results compared with single-molecule loaders",
             "Model-based (stateful) exploration: every voxel encodes (tomogram, z, y, x), so the subtomogram returned for row i names the molecule it was cut at; rows, image ids, features, ancestors and group partitions are compared with a Python model after every step, and score/align/landscape/apply rows with single-molecule loaders.",
             "add_tomogram/add_loader are treated as construction steps (documented to mutate); binning is checked for bookkeeping only (values are C15's)", "4/C03"),
+    "C18": ("Hypothesis-generated image stacks / masks / chunkings vs an exact numpy SVD of the centred masked matrix; planted clusters; loader.classify on tomograms with interleaved planted classes",
+            "Generated-input exploration with a reference-model oracle (singular values, principal subspaces, projections, orthonormality, chunking independence), planted-truth cluster recovery, and a bookkeeping oracle for loader.classify (one integer column in molecule order, nothing else changed).",
+            "components compared as subspaces where singular values are within 1% of each other; cluster recovery only asserted for well separated planted classes and n_clusters <= k + 1", "4/C18"),
 }
 
 NOT_YET = {}
